@@ -254,6 +254,10 @@ func (w *Walker) parseRoutingRule(ctx dae_config.IRoutingRuleContext) *RoutingRu
 	} else {
 		panic("unknown outboundExpr")
 	}
+	if outbound == nil {
+		// parseFunctionPrototype has reported the error (e.g. empty parameter list).
+		return nil
+	}
 	return &RoutingRule{
 		AndFunctions: andFunctions,
 		Outbound:     *outbound,
